@@ -196,7 +196,7 @@ def subchecks():
             name="spec-objects",
             run_case=run_spec_objects,
             strategy=lambda tier: gen.scenario(tier),
-            examples={"quick": 4500, "thorough": 100000},
+            examples={"quick": 9000, "thorough": 100000},
             case_timeout=20.0,
         ),
         SubCheck(
